@@ -282,6 +282,20 @@ Fixpoint sd_trace (n : nat) (s : vec * bool) : list vec :=
   end.
 End SteepestDescent.
 
+(* ============================================ accelerated proximal gradient (FISTA) *)
+Section AccProxGrad.
+(* alpha k = (t_old - 1) / t of iteration k: the scalar recursion t <- (1 + sqrt(1 + 4 t^2)) / 2
+   is a parameter of the model (irrational), the vector plumbing is modelled *)
+Variables (proxf gradg : vec -> vec) (gamma : T) (alpha : nat -> T).
+Definition apg_step (k : nat) (s : vec * vec) : vec * vec :=
+  let '(x, y) := s in
+  let tmp := vlin none_ y (nopp gamma) (gradg y) in            (* tmp.lincomb(1, y, -gamma, g_grad(y)) *)
+  let y := x in                                                 (* y.assign(x) *)
+  let x := proxf tmp in                                         (* f_prox(tmp, out=x) *)
+  let y := vlin (none_ + alpha k) x (nopp (alpha k)) y in       (* y.lincomb(1 + alpha, x, -alpha, y) *)
+  (x, y).
+End AccProxGrad.
+
 (* ======================================================== DCA and proximal DCA *)
 Section DCA.
 Variables (gradfcc gradg proxf : vec -> vec) (gamma : T).
